@@ -116,6 +116,13 @@ MODEL_DOC = {
     "loads": "json.loads raises ValueError (JSONDecodeError)",
     "fromtimestamp": "datetime.fromtimestamp raises OverflowError / OSError / ValueError out of range",
     "size": "<stream>.read(n) / bytearray(n) / bytes(n) convert n to a C ssize_t and allocate n bytes: OverflowError (or MemoryError) for an arbitrarily large n; modelled only where n provably flows, without an upper bound, from a text -> int conversion",
+    "datetime-range": "operations that move a datetime fail at the ends of datetime.min..max (CPython Modules/_datetimemodule.c: 'date value out of range', 'year 0 is out of range'): "
+    "d.astimezone(tz) / d.utctimetuple() subtract d's UTC offset (OverflowError; astimezone of a naive d first looks up the local zone with the platform's localtime: also ValueError); "
+    "d + timedelta / d - timedelta / d += ... (OverflowError); d.replace(year= / month= / day=) re-validates the date against d's other fields (ValueError, e.g. Feb 29); "
+    "d.timestamp() of a naive d goes through local time (OverflowError / ValueError; total for an aware d: (d - epoch).total_seconds());. "
+    "Modelled only where the receiver provably may hold a datetime that a parser built from external text / numbers (email.utils.parsedate_to_datetime, datetime.strptime / "
+    "fromisoformat / fromtimestamp / utcfromtimestamp, or a package function / property / header_property returning one): such a value lies anywhere in the range, ends "
+    "included, with any UTC offset. datetime.now() and application-supplied datetimes are not at the range ends (outside the property's input domain)",
     "rawio-dispatch": "io.RawIOBase.read(n) calls self.readall() for n < 0 and self.readinto(bytearray(n)) otherwise (CPython Modules/_io/iobase.c)",
 }
 
@@ -182,6 +189,9 @@ class Effects:
         # optional predicate (fi, call, size expression) -> bool: the size argument provably flows, unbounded, from a
         # parsed client integer (set by the rule module once the call graph is known)
         self.size_hook: t.Callable[[FuncInfo, ast.Call, ast.AST], bool] | None = None
+        # optional (fi, operation node, receiver expression) -> (may hold a datetime parsed from external text / numbers,
+        # provably timezone-aware); None = the datetime-range kind is not modelled (set by the rule module, like size_hook)
+        self.dt_hook: t.Callable[[FuncInfo, ast.AST, ast.AST], tuple[bool, bool]] | None = None
         self.enum_classes = {c.fq for c in repo.all_classes() if any(b.fq.endswith("Enum") for b in repo.mro(c)[1:])}
 
     # -- per function facts ----------------------------------------------
@@ -267,6 +277,22 @@ class Effects:
                     elif m in ("read", "read1", "readline", "recv") and len(n.args) == 1 and not n.keywords and not isinstance(n.args[0], ast.Constant):
                         if self.size_hook is not None and self.size_hook(fi, n, n.args[0]):
                             add(n, "size", "OverflowError")
+                    elif self.dt_hook is not None and m in ("astimezone", "utctimetuple", "timestamp") and not (fq and fq.startswith("werkzeug.")):
+                        client, aware = self.dt_hook(fi, n, n.func.value)
+                        if client and not (m == "timestamp" and aware):
+                            add(n, "datetime-range", "OverflowError")
+                            if not aware and m != "utctimetuple":
+                                add(n, "datetime-range", "ValueError")
+                    elif self.dt_hook is not None and m == "replace" and not (fq and fq.startswith("werkzeug.")) and (n.args or any(k.arg in ("year", "month", "day", None) for k in n.keywords)):
+                        # the date fields (positional: year, month, day first); a text receiver never has a datetime origin
+                        if self.dt_hook(fi, n, n.func.value)[0]:
+                            add(n, "datetime-range", "ValueError")
+            elif self.dt_hook is not None and isinstance(n, ast.BinOp) and isinstance(n.op, (ast.Add, ast.Sub)):
+                if self.dt_hook(fi, n, n)[0]:
+                    add(n, "datetime-range", "OverflowError")
+            elif self.dt_hook is not None and isinstance(n, ast.AugAssign) and isinstance(n.op, (ast.Add, ast.Sub)) and isinstance(n.target, ast.Name):
+                if self.dt_hook(fi, n, ast.BinOp(ast.Name(n.target.id, ast.Load()), n.op, n.value))[0]:
+                    add(n, "datetime-range", "OverflowError")
             elif isinstance(n, ast.Attribute) and n.attr == "port" and isinstance(n.ctx, ast.Load) and not astq.is_self_attr(n):
                 add(n, "port", "ValueError")
             elif isinstance(n, ast.Assign) and isinstance(n.targets[0], (ast.Tuple, ast.List)) and isinstance(n.value, ast.Call) and isinstance(n.value.func, ast.Attribute) and n.value.func.attr in ("split", "rsplit"):
@@ -1765,6 +1791,246 @@ class Flow:
                 return True
         return False
 
+    # -- datetimes built by a parser from external text / numbers ------------------------
+    _DT_PARSERS = {
+        "email.utils.parsedate_to_datetime", "datetime.datetime.strptime", "datetime.datetime.fromisoformat", "datetime.datetime.fromtimestamp",
+        "datetime.datetime.utcfromtimestamp", "datetime.datetime.fromordinal", "datetime.datetime.fromisocalendar",
+    }
+    _DT_NOW = {"datetime.datetime.now", "datetime.datetime.utcnow", "datetime.datetime.today"}
+    _DT_KEEP = ("replace", "astimezone")  # datetime methods whose result is as extreme as the receiver
+
+    def client_datetime(self, fi: FuncInfo, e: ast.AST | None, node, st: St = St()) -> bool:
+        """e MAY hold a datetime that a parser built from external text / numbers - a value anywhere in
+        datetime.min..max, ends included, with any UTC offset: the result of parsedate_to_datetime / strptime / fromisoformat /
+        fromtimestamp, of a package function, property or header_property returning one, carried through local names,
+        conditional expressions, `or`, datetime.replace / astimezone, +/- and parameter binding (the argument of the
+        call being followed, else of any call site reachable from the entry points).  Unknown origins (application values,
+        datetime.now()) answer False: this only ever adds a finding."""
+        if e is None:
+            return False
+        key = ("cdt", fi.fq, ("n:" + e.id) if isinstance(e, ast.Name) else norm(e) if isinstance(e, ast.Attribute) else id(e), node.id if node is not None else -1, tuple(id(c[1]) for c in st.cs))
+        if key in st.seen or len(st.seen) > 300:
+            return False
+        st = st._replace(seen=st.seen | {key})
+        cd = self.client_datetime
+        if isinstance(e, ast.Constant):
+            return False
+        if isinstance(e, ast.NamedExpr):
+            return cd(fi, e.value, node, st)
+        if isinstance(e, ast.IfExp):
+            return cd(fi, e.body, node, st) or cd(fi, e.orelse, node, st)
+        if isinstance(e, ast.BoolOp):
+            return any(cd(fi, v, node, st) for v in e.values)
+        if isinstance(e, ast.BinOp) and isinstance(e.op, (ast.Add, ast.Sub)):
+            if isinstance(e.op, ast.Add):
+                return cd(fi, e.left, node, st) or cd(fi, e.right, node, st)
+            return cd(fi, e.left, node, st) and not self._is_datetime(fi, e.right, node, st)  # datetime - datetime is a timedelta
+        if isinstance(e, ast.Call):
+            d = dotted(e.func)
+            fq = self.repo.resolve(fi.module, d, self.local_imports(fi)) if d else None
+            if fq in self._DT_PARSERS:
+                return bool(e.args or e.keywords) and not all(isinstance(a, ast.Constant) for a in list(e.args) + [k.value for k in e.keywords])
+            if fq in self._DT_NOW:
+                return False
+            if fq == "datetime.datetime.combine" and e.args:
+                return cd(fi, e.args[0], node, st)
+            if fq in ("typing.cast", "typing_extensions.cast") and len(e.args) == 2:
+                return cd(fi, e.args[1], node, st)
+            gs = self.resolve_callee(fi, e)
+            if gs:
+                for g in gs:
+                    st2 = st._replace(cs=st.cs + ((fi, e, g),))
+                    if len(st2.cs) > 4 or any(isinstance(x, (ast.Yield, ast.YieldFrom)) for x in walk_no_nested(g.node)):
+                        continue
+                    for r in astq.returns_of(g.node):
+                        if r.value is not None and cd(g, r.value, cfg_of(g).node_of(r), st2):
+                            return True
+                return False
+            if isinstance(e.func, ast.Attribute) and e.func.attr in self._DT_KEEP:
+                return cd(fi, e.func.value, node, st)
+            return False
+        if isinstance(e, ast.Name):
+            if node is None or (hasattr(e, "_parent") and bound_in_enclosing_comp(e, stop=fi.node) is not None):
+                return False
+            for d_ in self.rd(fi).reaching(node, e.id):
+                if d_.kind in ("assign", "walrus") and d_.index is None and d_.value is not None:
+                    if cd(fi, d_.value, d_.node, st):
+                        return True
+                elif d_.kind == "unpack" and isinstance(d_.index, int) and isinstance(d_.value, (ast.Tuple, ast.List)) and isinstance(d_.stmt, ast.Assign) and isinstance(d_.stmt.targets[0], (ast.Tuple, ast.List)) and len(d_.stmt.targets[0].elts) == len(d_.value.elts) and not any(isinstance(x, ast.Starred) for x in d_.value.elts + d_.stmt.targets[0].elts):
+                    if cd(fi, d_.value.elts[d_.index], d_.node, st):  # a, b = x, y
+                        return True
+                elif d_.kind == "aug" and d_.value is not None:
+                    if cd(fi, ast.Name(e.id, ast.Load()), d_.node, st):
+                        return True
+                elif d_.kind == "param":
+                    for f2, x, n2, s2 in self._may_param_sources(fi, d_.name, st):
+                        if cd(f2, x, n2, s2):
+                            return True
+            return False
+        if isinstance(e, ast.Attribute) and fi.cls is not None and fi.params and astq.is_self_attr(e, None, fi.params[0]) and st.hops < 5:
+            st2 = St((), st.seen, st.hops + 1)
+            for g in self.eff._getters(fi.cls, e.attr):  # property / cached_property getter, load_func of a header_property
+                for r in astq.returns_of(g.node):
+                    if r.value is not None and cd(g, r.value, cfg_of(g).node_of(r), st2):
+                        return True
+            classes = [k for k in self.repo.mro(fi.cls) if isinstance(k, ClassInfo)] + list(self.repo.subclasses(fi.cls.fq))
+            for k in classes:
+                for m in k.methods.values():
+                    sn = m.params[0] if m.params else "self"
+                    for s_ in walk_no_nested(m.node):
+                        if isinstance(s_, (ast.Assign, ast.AnnAssign)) and getattr(s_, "value", None) is not None:
+                            tgs = s_.targets if isinstance(s_, ast.Assign) else [s_.target]
+                            if any(astq.is_self_attr(tg, e.attr, sn) for tg in tgs) and cd(m, s_.value, cfg_of(m).node_of(s_), st2):
+                                return True
+            return False
+        return False
+
+    def _may_param_sources(self, fi: FuncInfo, pname: str, st: St):
+        """[(fi', expr, node', st')] argument expressions the parameter MAY be bound to: the call being followed, else every
+        resolvable call site among the functions reachable from the entry points (unresolvable ones are skipped)."""
+        if fi.params and fi.cls is not None and pname == fi.params[0] and not any(d.rsplit(".", 1)[-1] == "staticmethod" for d in fi.decorators):
+            return []
+        if st.cs and st.cs[-1][2] is fi:
+            cf, call, _ = st.cs[-1]
+            b = self.bind(fi, call, pname)
+            nn = cfg_of(cf).node_of(call)
+            return [(cf, b[1], nn, st._replace(cs=st.cs[:-1]))] if b is not None and b[0] == "arg" and nn is not None else []
+        if st.hops >= 5:
+            return []
+        out = []
+        for f, n, kind in self.callers(fi):
+            b = self.bind(fi, n, pname) if kind == "call" else None
+            nn = cfg_of(f).node_of(n) if b is not None else None
+            if b is not None and b[0] == "arg" and nn is not None:
+                out.append((f, b[1], nn, St((), st.seen, st.hops + 1)))
+        return out
+
+    def _is_datetime(self, fi: FuncInfo, e: ast.AST, node, st: St, depth: int = 0) -> bool:
+        """e is provably a datetime (not a timedelta): a parsed one, datetime.now() / combine(), a datetime method result,
+        a package helper annotated to return one, a local name all of whose definitions are / a parameter annotated so."""
+        if depth > 6:
+            return False
+        if self.client_datetime(fi, e, node, st):
+            return True
+        if isinstance(e, ast.NamedExpr):
+            return self._is_datetime(fi, e.value, node, st, depth + 1)
+        if isinstance(e, ast.Call):
+            d = dotted(e.func)
+            fq = self.repo.resolve(fi.module, d, self.local_imports(fi)) if d else None
+            if fq in self._DT_NOW or fq in self._DT_PARSERS or fq in ("datetime.datetime", "datetime.datetime.combine"):
+                return True
+            gs = self.resolve_callee(fi, e)
+            if gs:
+                return all(self._annotated_datetime(g.node.returns) for g in gs)  # type: ignore[attr-defined]
+            if isinstance(e.func, ast.Attribute) and e.func.attr in ("replace", "astimezone"):
+                return self._is_datetime(fi, e.func.value, node, st, depth + 1)
+            return False
+        if isinstance(e, ast.Name) and node is not None:
+            defs = list(self.rd(fi).reaching(node, e.id))
+            if not defs:
+                return False
+            for d_ in defs:
+                if d_.kind in ("assign", "walrus") and d_.index is None and d_.value is not None:
+                    ann = d_.stmt.annotation if isinstance(d_.stmt, ast.AnnAssign) else None
+                    if not (self._annotated_datetime(ann) or self._is_datetime(fi, d_.value, d_.node, st, depth + 1)):
+                        return False
+                elif d_.kind == "param":
+                    a = fi.node.args  # type: ignore[attr-defined]
+                    arg = next((x for x in a.posonlyargs + a.args + a.kwonlyargs if x.arg == d_.name), None)
+                    if arg is None or not self._annotated_datetime(arg.annotation):
+                        return False
+                else:
+                    return False
+            return True
+        return False
+
+    @staticmethod
+    def _annotated_datetime(ann: ast.AST | None) -> bool:
+        """the annotation names datetime (possibly | None) and not timedelta / date / a number."""
+        if ann is None:
+            return False
+        if isinstance(ann, ast.Constant) and isinstance(ann.value, str):
+            try:
+                ann = ast.parse(ann.value, mode="eval").body
+            except SyntaxError:
+                return False
+        parts = ann_parts(ann)
+        return bool(parts) and all(p in ("datetime", "datetime.datetime", "None") for p in parts) and any(p != "None" for p in parts)
+
+    def client_dt_arith(self, fi: FuncInfo, e: ast.BinOp, node) -> bool:
+        """`a + b` / `a - b` moves a parsed datetime by a timedelta (a - <datetime> yields a timedelta and cannot overflow)."""
+        if isinstance(e.op, ast.Add):
+            return self.client_datetime(fi, e.left, node) or self.client_datetime(fi, e.right, node)
+        return self.client_datetime(fi, e.left, node) and not self._is_datetime(fi, e.right, node, St())
+
+    def aware_datetime(self, fi: FuncInfo, e: ast.AST | None, node, st: St = St()) -> bool:
+        """e PROVABLY has a tzinfo (or is None / not a datetime at all - the claim is only used on a receiver): a dominating
+        test on <e>.tzinfo / <e>.utcoffset(), or every origin is aware: X.replace(tzinfo=<not None>), X.astimezone(..),
+        now(tz) / fromtimestamp(.., tz), a package helper all of whose returns are, a parameter whose every call site is."""
+        if e is None:
+            return False
+        key = ("adt", fi.fq, ("n:" + e.id) if isinstance(e, ast.Name) else id(e), node.id if node is not None else -1, tuple(id(c[1]) for c in st.cs))
+        if key in st.seen or len(st.seen) > 300:
+            return False
+        st = st._replace(seen=st.seen | {key})
+        aw = self.aware_datetime
+        if isinstance(e, ast.Constant):
+            return e.value is None
+        if isinstance(e, ast.NamedExpr):
+            return aw(fi, e.value, node, st)
+        if isinstance(e, (ast.Name, ast.Attribute)) and node is not None:
+            ks = self.keys(fi, e, node)
+            tz = {k + ".tzinfo" for k in ks} | {k + ".utcoffset()" for k in ks}
+            if self.holds(fi, node, lambda at: (at.op == "truthy" and at.truth and norm(at.a) in tz) or (at.op in ("is", "eq") and not at.truth and norm(at.a) in tz and astq.is_none(at.b))) is not None:
+                return True
+        if isinstance(e, ast.IfExp):
+            return aw(fi, e.body, node, st) and aw(fi, e.orelse, node, st)
+        if isinstance(e, ast.Attribute) and fi.cls is not None and fi.params and astq.is_self_attr(e, None, fi.params[0]) and st.hops < 5:
+            gs = self.eff._getters(fi.cls, e.attr)  # property / cached_property getter, load_func of a header_property (its default is None)
+            st2 = St((), st.seen, st.hops + 1)
+            return bool(gs) and all(r.value is None or aw(g, r.value, cfg_of(g).node_of(r), st2) for g in gs for r in astq.returns_of(g.node))
+        if isinstance(e, ast.Call):
+            d = dotted(e.func)
+            fq = self.repo.resolve(fi.module, d, self.local_imports(fi)) if d else None
+            if fq in ("datetime.datetime.now", "datetime.datetime.fromtimestamp"):
+                tzv = astq.arg_or_kw(e, 0 if fq.endswith("now") else 1, "tz")
+                return tzv is not None and not astq.is_none(tzv)
+            gs = self.resolve_callee(fi, e)
+            if gs:
+                for g in gs:
+                    st2 = st._replace(cs=st.cs + ((fi, e, g),))
+                    rets = astq.returns_of(g.node)
+                    if len(st2.cs) > 4 or not rets or any(isinstance(x, (ast.Yield, ast.YieldFrom)) for x in walk_no_nested(g.node)):
+                        return False
+                    if not all(r.value is None or aw(g, r.value, cfg_of(g).node_of(r), st2) for r in rets):
+                        return False
+                return True
+            if isinstance(e.func, ast.Attribute):
+                if e.func.attr == "astimezone":
+                    return True
+                if e.func.attr == "replace":
+                    tzv = astq.kwarg(e, "tzinfo")
+                    if tzv is not None:
+                        return not astq.is_none(tzv)
+                    return not any(k.arg is None for k in e.keywords) and len(e.args) < 8 and aw(fi, e.func.value, node, st)
+            return False
+        if isinstance(e, ast.Name) and node is not None:
+            defs = list(self.rd(fi).reaching(node, e.id))
+            if not defs:
+                return False
+            for d_ in defs:
+                if d_.kind in ("assign", "walrus") and d_.index is None and d_.value is not None:
+                    if not aw(fi, d_.value, d_.node, st):
+                        return False
+                elif d_.kind == "param":
+                    srcs = self.param_sources(fi, d_.name, st)
+                    if srcs is None or not all(aw(f2, x, n2, s2) for f2, x, n2, s2 in srcs):
+                        return False
+                else:
+                    return False
+            return True
+        return False
+
     # -- constants known to occur inside a string ---------------------------------
     def contained(self, fi: FuncInfo, e: ast.AST | None, node, st: St = St()) -> set:
         """constant substrings c with `c in <e>` established (guards, reaching definitions, callers)."""
@@ -1871,6 +2137,23 @@ class Flow:
                         if k not in _seen:
                             out |= self.param_deps(fi, d_.value, d_.node, _seen | {k})
         return out
+
+
+def ann_parts(ann: ast.AST) -> list[str]:
+    """the alternatives of an annotation: `A | B | None`, Optional[A], Union[A, B] flattened to dotted names ('?' = other)."""
+    if isinstance(ann, ast.BinOp) and isinstance(ann.op, ast.BitOr):
+        return ann_parts(ann.left) + ann_parts(ann.right)
+    if isinstance(ann, ast.Constant) and ann.value is None:
+        return ["None"]
+    if isinstance(ann, ast.Subscript):
+        head = (dotted(ann.value) or "").rsplit(".", 1)[-1]
+        if head == "Optional":
+            return ann_parts(ann.slice) + ["None"]
+        if head == "Union":
+            elts = ann.slice.elts if isinstance(ann.slice, ast.Tuple) else [ann.slice]
+            return [p for x in elts for p in ann_parts(x)]
+        return ["?"]
+    return [dotted(ann) or "?"]
 
 
 def _match_minlen(rx: RegexConst, path: tuple) -> int:
